@@ -1092,14 +1092,33 @@ class Engine:
                     out.append((s2, oc))
         return out
 
+    def _qf(self, e):
+        cache = self.__dict__.setdefault("_qf_cache", {})
+        i = e.get_id()
+        if i not in cache:
+            seen, stack, q = set(), [e], False
+            while stack and not q:
+                x = stack.pop()
+                if x.get_id() in seen:
+                    continue
+                seen.add(x.get_id())
+                if z3.is_quantifier(x):
+                    q = True
+                else:
+                    stack.extend(x.children())
+            cache[i] = not q
+        return cache[i]
+
     def feasible(self, st):
+        """Prune a path only when the QUANTIFIER-FREE part of its path
+        condition is unsatisfiable (cheap and sound for pruning)."""
         if not self.feas:
             return True
-        key = tuple(p.get_id() for p in st.pc[-6:]) + (len(st.pc),)
         sol = z3.Solver()
         sol.set("timeout", 300)
         for a in st.pc:
-            sol.add(a)
+            if self._qf(a):
+                sol.add(a)
         return sol.check() != z3.unsat
 
     def exec_stmt(self, st, stmt):
